@@ -34,6 +34,8 @@ def conc_suite(profile, n_quick, n_thorough, sched_quick, sched_thorough, focus,
         directed = {
             "wait": [[["wait", "proc"], ["dqnb", "enq", "dqne"]], [["wait", "proc"], ["enq"]], [["wait", "proc"], ["wait", "proc"], ["enq", "enq"]],
                      [["waitfor", "proc"], ["dqnb", "dqnb", "enq", "dqne", "dqne"]], [["wait", "proc"], ["dqnb", "enq", "dqne"], ["one"]],
+                     [["wait", "proc"], ["dqnb", "dqnc", "dqne", "enq", "dqne"]], [["waitfor", "proc"], ["dqnb", "dqna", "enq", "dqne"]],
+                     [["wait", "proc"], ["enq"], ["dqnb", "dqnc", "dqne", "dqne"]],
                      [["wait", "proc"], ["enq"], ["ifE"]], [["wait", "proc"], ["dqnb", "dqne"], ["ifE"], ["enq"]],
                      # processUntil stops at event 0 and puts it back: the same window as processIf's put-back
                      [["wait", "proc"], ["enq"], ["untE"]], [["wait", "proc"], ["dqnb", "dqne"], ["untE"], ["enq"]]],
@@ -84,7 +86,7 @@ def conc_suite(profile, n_quick, n_thorough, sched_quick, sched_thorough, focus,
                     sec = out.get(name)
                     if sec is None:
                         continue
-                    mtext += "--- %s\nflag %d\n" % (name, flag) + "".join("thread %s\n" % " ".join(p) for p in progs)
+                    mtext += "--- %s\nflag %d\n" % (name, flag) + "".join("thread %s\n" % " ".join(p) for p in suite_conc.model_progs(progs))
                     mtext += "\n".join(l for l in sec if l.startswith("step ")) + "\n"
                 rcm, mout, errm = vlib.run_driver("conc", mtext, timeout=900)
                 for name, progs, seed, spur in chunk:
@@ -108,7 +110,7 @@ def conc_suite(profile, n_quick, n_thorough, sched_quick, sched_thorough, focus,
                             kind = "violation"
                             ctx.fail(kind, "%s: %s" % orc, script + "# schedule (global order of the performed micro-steps):\n" + "\n".join("# " + l for l in di["steps"]),
                                      vlabel + "/" + profile, "\n".join(sec[-12:]))
-                            ctx.failures[-1]["classifier"] = "%s:%s" % (orc[0], "lost-wakeup" if orc[0] == "C07" else "conservation")
+                            ctx.failures[-1]["classifier"] = "%s:%s" % (orc[0], {"C07": "lost-wakeup", "C11": "emptiness"}.get(orc[0], "conservation"))
                             ctx.failures[-1]["found_prop"] = orc[0]
                         continue
                     dm = suite_conc.parse(mout.get(name, []))
@@ -197,6 +199,7 @@ register(
 
 
 import suite_concl  # noqa: E402
+import reg_cl  # noqa: E402
 
 
 def concl_suite(ctx, search=False):
@@ -369,7 +372,10 @@ register(
     "C03",
     lean_modules=["EventppVerif.Properties.C03", "EventppVerif.Properties.C02bridge", "EventppVerif.Properties.C03slot", "EventppVerif.Properties.C03spin"],
     fragments=["ClFrag", "SpinFrag"],
-    suites=[concl_suite, hslot_suite, spin_suite],
+    suites=[concl_suite, hslot_suite, spin_suite,
+            # a call that never returns needs no second thread: an addition that takes the list mutex and then wraps the
+            # generation counter (getNextCounter locks the same mutex) is reported by the "checked" mutex
+            reg_cl.cl_suite("wrap", 150, 3000, nontrivial=lambda feat, script, canon: feat["wrap_cmds"] >= 1 and feat["calls"] >= 2)],
     level_text="Lean theorems on the concurrent micro-step model of CallbackList over the pointer model (every schedule, any number of threads): well-formedness of the list after every micro-step, "
                "linearizability by fixed linearization points (each adding / removing / querying call takes effect in one atomic critical section whose result is the Spec result on the abstract list), "
                "every traversal step calls a live callback and terminates. Partial: sequential consistency is assumed (the library's intentional unlocked reads are data races by the letter of the "
